@@ -41,6 +41,7 @@ func init() {
 	generators["doublestop"] = genDoubleStop
 	generators["ctxcancel"] = genCtxCancel
 	generators["nowaitrestart"] = genNoWaitRestart
+	generators["newlogline"] = genNewLogLine
 	generators["chaintakeover"] = genChainTakeover
 }
 
@@ -2478,6 +2479,69 @@ func genNoWaitRestart(r rng, k int) *Spec {
 		Action{After: ms, Kind: "waitapi", Inst: "i0", D: 8 * sec},
 	)
 	s.Duration = 4 * h
+	s.Sample = sampleFor(h)
+	return s
+}
+
+// ---------------------------------------------------------------------------
+// newlogline: a log line whose message the catalogue does not know (one that a change to
+// the library has introduced) is a place where the library calls user code that did not
+// exist before. Its 1st / 2nd / 3rd occurrence is held; the record goes away or nothing
+// happens; virtual time passes (1.2 H or TTL + 2 H: terms end, the instance is re-elected);
+// then the call returns. On the unchanged library nothing is ever held.
+// ---------------------------------------------------------------------------
+
+// NewLogLineTotal is the size of the enumeration.
+func NewLogLineTotal() int { return 3 * 4 * 2 * 2 }
+
+func genNewLogLine(r rng, k int) *Spec {
+	for _, m := range hrLogs {
+		KnownLogs[m] = true
+	}
+	idx := k % NewLogLineTotal()
+	nth := 1 + idx%3
+	idx /= 3
+	race := []string{"outdel", "outexpire", "none", "stop"}[idx%4]
+	idx /= 4
+	long := idx%2 == 1
+	idx /= 2
+	two := idx%2 == 1
+	h := r.pickD(200*ms, 500*ms)
+	s := &Spec{TTL: 3 * h, NoPreempt: true, Tags: []string{"newlogline", race}}
+	s.Lat = Latency{Max: r.pickD(0, 2*ms)}
+	n := 1
+	if two {
+		n = 2
+	}
+	s.Insts = mkInsts(n, 1, h)
+	s.Insts[0].BlockPromote = r.chance(0.5)
+	s.Insts[0].ValInterval = r.pickD(0, h)
+	s.Breaks = []BreakSpec{{Name: "nl", Client: "i0", Op: "log:?new", Nth: nth, Phase: "sink", Armed: true}}
+	var acts []Action
+	switch race {
+	case "outdel":
+		acts = append(acts, Action{Kind: "outdel", Inst: "g0"})
+	case "outexpire":
+		acts = append(acts, Action{Kind: "outexpire", Inst: "g0"})
+	case "stop":
+		acts = append(acts, Action{Kind: "restart", Inst: "i0", Stop: &StopVariant{DeleteKey: true, Timeout: 5 * sec}})
+	}
+	nap := h * 12 / 10
+	if long {
+		nap = s.TTL + 2*h
+	}
+	acts = append(acts, Action{Kind: "spin", D: 2 * ms}, Action{Kind: "nap", Inst: "i0", D: nap}, Action{Kind: "release", Break: "nl"})
+	s.Reactions = []Reaction{{Break: "nl", Actions: acts}}
+	s.Actions = append(s.Actions, Action{At: 10 * ms, Kind: "start", Inst: "i0"})
+	if two {
+		s.Actions = append(s.Actions, Action{At: 300 * ms, Kind: "start", Inst: "i1"})
+	}
+	// a few terms of its own, so that per-term log lines occur more than once
+	s.Actions = append(s.Actions,
+		Action{At: 2 * sec, Kind: "restart", Inst: "i0", Stop: &StopVariant{DeleteKey: true, Wait: true, Timeout: 5 * sec}},
+		Action{At: 4 * sec, Kind: "outdel", Inst: "g0"},
+	)
+	s.Duration = 3*s.TTL + 2*sec
 	s.Sample = sampleFor(h)
 	return s
 }
